@@ -1,5 +1,6 @@
 """C02 — float->decimal output round-trips exactly and is shortest."""
 import gens
+import gens_walgos
 import vlib
 from props.common import TRUSTED_BASE, ASSUMPTIONS
 
@@ -7,8 +8,12 @@ ID = "C02"
 LEAN_MODULES = ["LexVerif.Props.C02", "LexVerif.Props.RoundNE", "LexVerif.Props.TablesWrite", "LexVerif.Props.Literals.WriteFloat", "LexVerif.Props.Literals.WriteInteger"]
 GEN = ["write_tables", "literals"]
 TRUSTED = TRUSTED_BASE + [
-    "Dragonbox / Grisu correctness for all inputs is NOT proved in Lean (research-level); proved: the oracle Spec.shortest "
-    "(sanity theorems), the formatting model, the caches/log tables; the algorithms are compared with the oracle on G-bits",
+    "Dragonbox / Grisu correctness for ALL inputs is NOT proved in Lean (research-level; `dragonbox_correct`, `grisu_roundtrip` are "
+    "visible Props). Proved: the oracle Spec.shortest (sanity theorems); the formatting model; the caches/log tables; on the Lean models "
+    "of algorithm.rs / compact.rs (tied by the `td` / `gr` component correspondence): every arithmetic kernel for all inputs "
+    "(umul128/192, divide_by_pow10, check_div_pow10, div_pow10, remove_trailing_zeros, floor_log* = true floor logs), the whole "
+    "compute_nearest_shorter branch (all 2300 zero-mantissa floats of both types, kernel-evaluated against the oracle), "
+    "cached_grisu_power = dump on its whole range; the general branch is compared with the oracle on G-bits",
 ]
 RULE = ("G-bits: every binade x {min, min+1, max-1, max, half, random}, all subnormal powers of two +-1, integers and halves < 130, "
         "d*10^k for 9 leading patterns and every k, floats having a <=4-digit decimal exactly on a rounding-interval endpoint "
@@ -18,8 +23,8 @@ RULE = ("G-bits: every binade x {min, min+1, max-1, max, half, random}, all subn
 
 
 TECHNIQUE = 'Lean 4 proof (Spec.shortest round-trips, is minimal and closest; formatting-layer model) + byte-exact correspondence and exact re-parse of every output'
-LEVEL_TEXT = 'Proved in Lean for all floats: the oracle Spec.shortest returns decimals that round-trip (via roundNE), have the fewest digits and are closest; the search always terminates within its fuel. The Dragonbox and Grisu implementations are NOT proved; every implementation output on the G-bits stream is compared byte-for-byte with oracle+formatting model (non-compact) and re-parsed exactly (round trip and <=17/9 digits, all builds).'
-LEVEL_NOTE = 'Trusted: Lean kernel; rustc; differential harness and generators. Dragonbox/Grisu control flow is not modelled in Lean yet; write-side cache tables are tied by the R dump (Props/TablesWrite once merged).'
+LEVEL_TEXT = 'Proved in Lean for all floats: the oracle Spec.shortest returns decimals that round-trip (via roundNE), have the fewest digits and are closest; the search always terminates within its fuel. Lean models of Dragonbox and Grisu mirror the Rust control flow (component correspondence td/gr); their arithmetic kernels are proved for all inputs and the shorter-interval branch of Dragonbox is proved for all 2300 inputs; the general case of the two algorithms is NOT proved; every implementation output on the G-bits stream is compared byte-for-byte with oracle+formatting model (non-compact) and re-parsed exactly (round trip and <=17/9 digits, all builds).'
+LEVEL_NOTE = 'Trusted: Lean kernel; rustc; differential harness and generators. Dragonbox (Model/Dragonbox.lean) and Grisu (Model/Grisu.lean) are modelled and compared with to_decimal / grisu on every op of the td / gr streams (>= 180k ops per run, 0 mismatches required); kernels and the shorter-interval branch are theorems, the normal branch (compute_nearest_normal) is NOT proved for all inputs; caches and log tables are tied by the R dump (Props/TablesWrite).'
 
 
 def feature_sets(tier):
@@ -35,6 +40,7 @@ def streams(tier, rng, fs, profile):
             cases = [c for i, c in enumerate(cases) if i % 3 == rng.randrange(3) or i > len(cases) - 3000]
         cases += gens.midpoint_decimal_floats(ty, 3 if tier == "quick" else 4)
         out.append(("g-bits-" + ty, gens.float_write_default_ops(rng, ty, sorted(set(cases)))))
+    out += gens_walgos.digit_generator_streams(tier, rng, fs)     # component level: to_decimal / grisu vs the Lean models
     return out
 
 
